@@ -149,7 +149,8 @@ func Fingerprint(o object.PanObject) string {
 		}
 		return fmt.Sprintf("err %s %q proto=%s", v.ErrKind, v.Msg, pid(v.Proto()))
 	case *object.PanErrWrapper:
-		return fmt.Sprintf("errwrapper %s %q proto=%s", v.ErrKind, v.Msg, pid(v.PanErr.Proto()))
+		// a wrapped (caught) error is a value a program holds: the report it would print when raised again is part of it
+		return fmt.Sprintf("errwrapper %s %q proto=%s stack=%q", v.ErrKind, v.Msg, pid(v.PanErr.Proto()), v.PanErr.StackTrace)
 	case *object.PanBuiltIn:
 		return "builtin"
 	case *object.PanBuiltInIter:
